@@ -39,6 +39,12 @@ Section DualBasis.
     do db <- bspldnev (re x) i k t (m + 1) org_k;
     dual_clone_from (vs x) b (vscale_l db (du x)).           (* dbdx_f64 * x.dual() *)
 
+  (* bsplev_single_dual :56: value from bsplev (org_k passed on), slope from the first derivative *)
+  Definition bsplev_dual (x : dual T) (i k : nat) (t : list T) (org_k : option nat) : outcome (dual T) :=
+    do b <- bsplev (re x) i k t org_k;
+    do db <- bspldnev (re x) i k t 1 org_k;
+    dual_clone_from (vs x) b (vscale_l db (du x)).
+
   (* bspldnev_single_dual2 :154
        dual2 = dbdx * x.dual2() + 0.5 * d2bdx2 * fouter11_(x.dual(), x.dual()) *)
   Definition bspldnev_dual2 (x : dual2 T) (i k : nat) (t : list T) (m : nat) (org_k : option nat)
@@ -46,6 +52,15 @@ Section DualBasis.
     do b <- bspldnev (re2 x) i k t m org_k;
     do db <- bspldnev (re2 x) i k t (m + 1) org_k;
     do d2b <- bspldnev (re2 x) i k t (m + 2) org_k;
+    let h := nmul nhalf d2b in
+    let dd := mzip nadd (mmap (fun e => nmul db e) (dd2 x))
+                        (mmap (fun e => nmul h e) (outer (du2 x) (du2 x))) in
+    dual2_clone_from (vs2 x) b (vscale_l db (du2 x)) dd.
+  (* bsplev_single_dual2 :72 *)
+  Definition bsplev_dual2 (x : dual2 T) (i k : nat) (t : list T) (org_k : option nat) : outcome (dual2 T) :=
+    do b <- bsplev (re2 x) i k t org_k;
+    do db <- bspldnev (re2 x) i k t 1 org_k;
+    do d2b <- bspldnev (re2 x) i k t 2 org_k;
     let h := nmul nhalf d2b in
     let dd := mzip nadd (mmap (fun e => nmul db e) (dd2 x))
                         (mmap (fun e => nmul h e) (outer (du2 x) (du2 x))) in
@@ -115,6 +130,26 @@ Section PPSpline.
       | None => Err
       end.
   End Kind.
+
+  (* PPSpline::bspldnev :286 (vector form): the m-th derivative of basis function i at each abscissa *)
+  Definition pp_bspldnev {E} (s : ppspline E) (xs : list T) (i m : nat) : outcome (list T) :=
+    omapM (fun x => bspldnev x i (pk s) (pt s) m None) xs.
+
+  (* PartialEq for PPSpline<T> :410-430 (e = the coefficient type's own ==) *)
+  Fixpoint vec_eqb_gen {A} (e : A -> A -> bool) (a b : list A) : bool :=
+    match a, b with
+    | [], [] => true
+    | x :: a', y :: b' => e x y && vec_eqb_gen e a' b'
+    | _, _ => false
+    end.
+  Definition pp_eqb {E} (e : E -> E -> bool) (a b : ppspline E) : bool :=
+    if negb (Nat.eqb (pk a) (pk b)) || negb (Nat.eqb (pn a) (pn b)) then false
+    else if negb (vec_eqb_gen neqb (pt a) (pt b)) then false
+    else match pc a, pc b with
+         | Some x, Some y => vec_eqb_gen e x y
+         | None, None => true
+         | _, _ => false
+         end.
 
   Definition dual_row (s_k : nat) (s_t : list T) (s_n : nat) (x : dual T) (m : nat)
     : outcome (list (dual T)) :=
